@@ -266,6 +266,20 @@ def generate(req):
         c.executemany('insert into "T Mixed" values(?,?,?,?)',
                       [(i * 2, g.text_value(), r.choice(g.blobs), g.any_value()) for i in range(max(3, n // 20))])
 
+    if "customcoll" in feats:
+        # a perfectly valid database that uses an application-defined collation
+        c.create_collation("mycoll", lambda a, b: (a > b) - (a < b))
+        c.execute("create table t_cc(k TEXT COLLATE mycoll PRIMARY KEY, v, w) WITHOUT ROWID")
+        c.execute("create index ix_cc_v on t_cc(v)")
+        c.execute("create table t_cc2(a TEXT COLLATE mycoll, b, c TEXT)")
+        c.execute("create index ix_cc2_ab on t_cc2(a, b)")
+        c.execute("create index ix_cc2_c on t_cc2(c COLLATE mycoll DESC)")
+        c.execute("create table t_cc3(a TEXT PRIMARY KEY COLLATE mycoll, b UNIQUE)")
+        m = max(6, n // 5)
+        c.executemany("insert or ignore into t_cc values(?,?,?)", [("k%03d" % i, r.randint(0, 9), g.any_value()) for i in range(m)])
+        c.executemany("insert or ignore into t_cc2 values(?,?,?)", [(g.text_value(), r.randint(0, 9), g.text_value()) for i in range(m)])
+        c.executemany("insert or ignore into t_cc3 values(?,?)", [("p%03d" % i, i) for i in range(m)])
+
     if "wide" in feats:
         ncol = int(prof.get("wide_cols", 140))
         c.execute("create table t_wide(%s)" % ",".join("c%d" % i for i in range(ncol)))
